@@ -190,12 +190,37 @@ def run(chk):
     chk.extra["unresolved_calls"] = unres
 
 
+_SCALAR_ATTRS = ("coeff", "mp_norm", "ttns_norm", "norm", "real", "imag", "offset")
+_MODULE_OF = {}
+
+
+def _string_values(e, fn):
+    """the string values an expression can take: a literal, or a loop variable over a literal / module-level tuple of literals"""
+    if isinstance(e, ast.Constant) and isinstance(e.value, str):
+        return [e.value]
+    if isinstance(e, ast.Name):
+        for n in ast.walk(fn):
+            if isinstance(n, ast.For) and isinstance(n.target, ast.Name) and n.target.id == e.id:
+                it_ = n.iter
+                if isinstance(it_, ast.Name):
+                    mod = _MODULE_OF.get(id(fn))
+                    cands = [st.value for st in (mod.body if mod is not None else []) if isinstance(st, ast.Assign) and len(st.targets) == 1 and unparse(st.targets[0]) == it_.id]
+                    it_ = cands[0] if len(cands) == 1 else it_
+                if isinstance(it_, (ast.Tuple, ast.List)) and all(isinstance(x, ast.Constant) and isinstance(x.value, str) for x in it_.elts):
+                    return [x.value for x in it_.elts]
+    return None
+
+
 def scalar_typed(e, fn, depth=0):
     """RHS of a store to .coeff is an immutable scalar (python / numpy scalar), never an ndarray"""
     if isinstance(e, ast.Constant) and isinstance(e.value, (int, float, complex)):
         return True
-    if isinstance(e, ast.Attribute) and e.attr in ("coeff", "mp_norm", "ttns_norm", "norm", "real", "imag", "offset"):
+    if isinstance(e, ast.Attribute) and e.attr in _SCALAR_ATTRS:
         return True          # propagation of another prefactor (checked at its own stores) / float-valued properties
+    if isinstance(e, ast.Call) and unparse(e.func) == "getattr" and len(e.args) >= 2:
+        # getattr(x, <name>) with the name ranging over string literals: as the attribute read x.<name>
+        names = _string_values(e.args[1], fn)
+        return names is not None and all(nm in _SCALAR_ATTRS for nm in names)
     if isinstance(e, ast.Call):
         f = unparse(e.func)
         if f in ("complex", "float", "int", "abs", "np.exp", "np.sqrt", "np.conj", "np.conjugate", "np.linalg.norm", "np.abs", "np.real"):
@@ -236,6 +261,7 @@ def scalar_prefactor(chk, src):
         for fi in src.funcs_in(rel):
             if fi.parent is not None:
                 continue
+            _MODULE_OF[id(fi.node)] = src.modules[rel]
             for n in ast.walk(fi.node):
                 if isinstance(n, ast.AugAssign) and isinstance(n.target, ast.Attribute) and n.target.attr == "coeff":
                     inplace.append(f"{fi.qual}: {norm_stmt(n, 70)}")
@@ -392,66 +418,153 @@ def is_fresh_expr(e):
 
 
 def copy_complete(chk, src):
+    """abstract runs of the copy family on symbolic objects whose attribute values are tagged: metacopy() of every chain class gives a new object of the same class that
+    carries every attribute its __init__ chain sets, mutable ones as objects of their own; copy() copies every site tensor; the tree analogues likewise"""
+    from ..syminterp import SymInterp, Sym, Blob
+    from .chain_rules import class_resolver
     fam = [("renormalizer/mps/mp.py", "MatrixProduct"), ("renormalizer/mps/mps.py", "Mps"), ("renormalizer/mps/mpo.py", "Mpo"),
            ("renormalizer/mps/mpdm.py", "MpDm")]
     EXC = {"symbolic_mpo": "construction-time only, read nowhere after __init__"}
     chk.table("copy_complete_exceptions", EXC)
+
+    class Val(Sym):
+        """tagged value: .copy() / deepcopy give a tagged copy"""
+        def __init__(self, name, of=None):
+            super().__init__(name)
+            self.of = of
+
+        def copy(self):
+            return Val(f"copy({self._name})", of=self)
+
+        def __deepcopy__(self, memo=None):
+            return self.copy()
+
+    def root(v):
+        while isinstance(v, Val) and v.of is not None:
+            v = v.of
+        return v
+
+    def deepcopy(x):
+        if isinstance(x, Val):
+            return x.copy()
+        if isinstance(x, list):
+            return [deepcopy(y) for y in x]
+        return x
+    n_sites = 3
+    table = {c: r for r, c in fam}
+    resolve = class_resolver(src, table)
     for rel, cname in fam:
         ci = src.cls(rel, cname)
         ia = init_attrs(src, ci)
-        ma = metacopy_attrs(src, ci)
-        conditional = set()
-        mpo_init = src.find_func("renormalizer/mps/mpo.py", "Mpo.__init__")
+
+        class Obj(Sym):
+            def __len__(self):
+                return n_sites
+
+            def __getitem__(self, k):
+                return self._mp[k]
+
+            def __setitem__(self, k, v):
+                self._mp[k] = v
+
+            def __iter__(self):
+                return iter(self._mp)
+
+        def make(name, filled=True, cname=cname, ia=ia):
+            o = Obj(name)
+            o._cls = cname
+            if filled:
+                for a in ia:
+                    o.__dict__[a] = Val(a)
+                o.__dict__["_mp"] = [Val(f"site{k}") for k in range(n_sites)]
+                o.__dict__["qn"] = [Val(f"qn{k}") for k in range(n_sites + 1)]
+                o.__dict__["site_num"] = n_sites
+            klass = Sym(cname)
+            klass.__dict__["__new__"] = lambda c=None: make("new", filled=False)
+            o.__dict__["__class__"] = klass
+            return o
+        me = make("self")
+        it = SymInterp(src, resolve, {"deepcopy": deepcopy, "copy": Sym("copy", deepcopy=deepcopy, copy=lambda x: x.copy()), "np": Sym("np", array=lambda x, **k: x), "logger": Blob("logger")})
+        it.max_depth = 12
+        mc = [c.methods["metacopy"] for c in src.mro(ci) if "metacopy" in c.methods][0]
+        new = it.call_function(mc, [me])
+        same_cls = isinstance(new, Obj) and new is not me and new._cls == cname
+        chk.ob("copy-complete", f"{cname}.metacopy: new object of the same class", same_cls, mc.where, repr(new), "a new object", line=mc.node.lineno)
         for a in sorted(ia):
             if a in EXC:
                 continue
-            ok = a in ma
-            chk.ob("copy-complete", f"{cname}.metacopy:{a}", ok, f"{rel}::{cname}.metacopy", "assigned" if ok else "missing", "assigned on the new object",
-                   detail=f"{cname}.__init__ (via {ia[a]}) sets self.{a} but metacopy never sets it on the new object: "
-                          f"copies lack the attribute or share it through the class")
-            if ok and a in MUTABLE_ATTRS:
-                val, owner, line = ma[a]
-                fresh = is_fresh_expr(val)
-                chk.ob("copy-complete", f"{cname}.metacopy:{a} fresh", fresh, f"{rel}::{owner}.metacopy", unparse(val), "fresh expression (.copy(), deepcopy, comprehension of copies, constructor)",
-                       line=line, detail=f"metacopy binds the source's mutable `{a}` to the copy: later in-place changes of one object change the other")
-    # copy(): every site tensor assigned from .copy()
+            has = isinstance(new, Obj) and a in new.__dict__
+            chk.ob("copy-complete", f"{cname}.metacopy:{a}", has, f"{rel}::{cname}.metacopy", "assigned" if has else "missing", "assigned on the new object",
+                   detail=f"{cname}.__init__ (via {ia[a]}) sets self.{a} but metacopy never sets it on the new object: copies lack the attribute or share it through the class")
+            if has and a in MUTABLE_ATTRS:
+                v0, v1 = me.__dict__[a], new.__dict__[a]
+                if isinstance(v0, list):
+                    fresh = isinstance(v1, list) and v1 is not v0 and all(y is None or (y is not x) for x, y in zip(v0, v1)) and (a == "_mp" or [root(y) for y in v1] == v0)
+                else:
+                    fresh = v1 is not v0 and root(v1) is v0
+                chk.ob("copy-complete", f"{cname}.metacopy:{a} fresh", fresh, f"{rel}::{cname}.metacopy", repr(v1)[:80], "an object of its own holding the same content (.copy(), deepcopy, a list of copies)",
+                       detail=f"metacopy binds the source's mutable `{a}` to the copy (or loses its content): later in-place changes of one object change the other")
+    # copy(): every site tensor is a copy of the source's
     cp = src.func("renormalizer/mps/mp.py", "MatrixProduct.copy")
-    ok = False
-    for n in ast.walk(cp.node):
-        if isinstance(n, ast.Assign) and isinstance(n.targets[0], ast.Subscript) and isinstance(n.value, ast.Call) \
-                and isinstance(n.value.func, ast.Attribute) and n.value.func.attr == "copy":
-            ok = True
-    chk.ob("copy-complete", "MatrixProduct.copy tensors", ok, cp.where, "new[i] = self[i].copy()" if ok else "tensor shared", "every site tensor copied")
-    # tree
-    tcp = src.func("renormalizer/tn/tree.py", "TTNS.copy")
-    got = set()
-    for n in ast.walk(tcp.node):
-        if isinstance(n, ast.Assign) and isinstance(n.targets[0], ast.Attribute) and isinstance(n.value, ast.Call) \
-                and isinstance(n.value.func, ast.Attribute) and n.value.func.attr == "copy":
-            got.add(n.targets[0].attr)
-    chk.ob("copy-complete", "TTNS.copy tensors+labels", {"tensor", "qn"} <= got, tcp.where, sorted(got), ["qn", "tensor"],
-           detail="TTNS.copy must copy every node tensor and every bond label array")
-    tmc = src.func("renormalizer/tn/tree.py", "TTNS.metacopy")
-    tinit = init_attrs(src, src.cls("renormalizer/tn/tree.py", "TTNS"))
-    tma = {}
-    from ..src import returned_names
-    res_names = returned_names(tmc.node)
-    for n in ast.walk(tmc.node):
-        if isinstance(n, ast.Assign) and isinstance(n.targets[0], ast.Attribute) and unparse(n.targets[0].value) in res_names:
-            tma[n.targets[0].attr] = n.value
+    me = make("self")
+    new = it.call_function(cp, [me])
+    ok = isinstance(new, Obj) and new is not me and len(new._mp) == n_sites and all(isinstance(y, Val) and y is not x and root(y) is x for x, y in zip(me._mp, new._mp))
+    chk.ob("copy-complete", "MatrixProduct.copy tensors", ok, cp.where, [repr(y) for y in getattr(new, "_mp", [])], "every site tensor copied", line=cp.node.lineno)
+    # ---- tree
+    TREE = "renormalizer/tn/tree.py"
+    tci = src.cls(TREE, "TTNS")
+    tinit = init_attrs(src, tci)
+    tres = class_resolver(src, {"TTNS": TREE})
+
+    class Tree(Sym):
+        def __iter__(self):
+            return iter(self.node_list)
+
+        def __len__(self):
+            return len(self.node_list)
+
+    def make_tree(name, filled=True):
+        t = Tree(name)
+        t._cls = "TTNS"
+        t.__dict__["node_list"] = [Sym(f"{name}.node{k}", tensor=Val(f"tensor{k}") if filled else None, qn=Val(f"nodeqn{k}") if filled else None) for k in range(3)]
+        t.__dict__["basis"] = "basis"
+        for a in ("coeff", "optimize_config", "evolve_config", "compress_config"):
+            if a not in tinit:
+                raise AnalysisError(f"TTNS.__init__ no longer assigns {a}")
+            t.__dict__[a] = Val(a) if filled else None
+
+        class Klass(Sym):
+            def __call__(self, basis, *a, **k):
+                return make_tree("new", filled=False)
+        t.__dict__["__class__"] = Klass("TTNS")
+        return t
+    itt = SymInterp(src, tres, {"deepcopy": deepcopy, "np": Sym("np", array=lambda x, dtype=None, **k: Val(f"array({x._name})", of=x) if isinstance(x, Val) else x, asarray=lambda x, **k: x),
+                                "complex": "complex", "logger": Blob("logger"), "TTNS": lambda basis, *a, **k: make_tree("new", filled=False)})
+    itt.max_depth = 12
+    tmc = src.func(TREE, "TTNS.metacopy")
+    me = make_tree("self")
+    new = itt.call_function(tmc, [me])
     for a in ("coeff", "optimize_config", "evolve_config", "compress_config"):
-        if a not in tinit:
-            raise AnalysisError(f"TTNS.__init__ no longer assigns {a}")
-        ok = a in tma and (a == "coeff" or is_fresh_expr(tma[a]))
-        chk.ob("copy-complete", f"TTNS.metacopy:{a}", ok, tmc.where, unparse(tma[a]) if a in tma else "missing", "assigned" + ("" if a == "coeff" else " from a fresh expression"))
-    tc = src.func("renormalizer/tn/tree.py", "TTNS.to_complex")
-    got = set()
-    for n in ast.walk(tc.node):
-        if isinstance(n, ast.Assign) and isinstance(n.targets[0], ast.Attribute) and isinstance(n.value, ast.Call):
-            f = unparse(n.value.func)
-            if f in ("np.array",) or f.endswith(".copy"):
-                got.add(n.targets[0].attr)
-    chk.ob("copy-complete", "TTNS.to_complex tensors+labels", {"tensor", "qn"} <= got, tc.where, sorted(got), ["qn", "tensor"])
+        v0, v1 = me.__dict__[a], getattr(new, "__dict__", {}).get(a)
+        ok = isinstance(new, Tree) and new is not me and v1 is not None and root(v1) is v0 and (a == "coeff" or v1 is not v0)
+        chk.ob("copy-complete", f"TTNS.metacopy:{a}", ok, tmc.where, repr(v1), "assigned" + ("" if a == "coeff" else " as an object of its own"), line=tmc.node.lineno)
+    for qual, args, kw, label in (("TTNS.copy", [], {}, "TTNS.copy tensors+labels"), ("TTNS.to_complex", [], {}, "TTNS.to_complex tensors+labels")):
+        fi = src.func(TREE, qual)
+        me = make_tree("self")
+        new = itt.call_function(fi, [me] + args, kw)
+        probs = []
+        if not isinstance(new, Tree) or new is me:
+            probs.append("no new tree is returned")
+        else:
+            for k, (n0, n1) in enumerate(zip(me.node_list, new.node_list)):
+                for a in ("tensor", "qn"):
+                    v0, v1 = n0.__dict__[a], n1.__dict__.get(a)
+                    if not (isinstance(v1, Val) and v1 is not v0 and root(v1) is root(v0)):
+                        probs.append(f"node {k}: {a} = {v1!r}")
+                if n0.__dict__["tensor"]._name != f"tensor{k}" or n0.__dict__["qn"]._name != f"nodeqn{k}":
+                    probs.append(f"node {k} of the source was rebound")
+        chk.ob("copy-complete", label, not probs, fi.where, probs[:3] or "every node: tensor and labels copied", "every node: tensor and labels copied", line=fi.node.lineno,
+               detail=f"{qual} must give every node of the new tree its own copy of the tensor and of the bond label array")
 
 
 META = {
